@@ -22,6 +22,13 @@ def run(ctx):
     E.e8_alias_discipline(ctx)
     E.e9_every_key_is_filed(ctx)
     E.e10_memo_keyed_by_arguments(ctx)
+    # the rules the table records are the universe the extractor minimises over
+    from ..engines import tablemethod as F
+    F.f1_recording(ctx, rule="E11", universe=True)
+    F.f13_database_insertion(ctx, rule_id="E11", universe=True)
+    F.f11_readers(ctx)
+    ctx.floor("E11", 9)
+    ctx.floor("F11", 6)
     from ..engines import storekeys as SK
     SK.w4_pack_iteration(ctx)
     ctx.floor("E1", 5)
